@@ -6,7 +6,7 @@ write it.  All of it is read off the typed MIR on every run:
   re-arm    firing re-arms the timer: the action must-calls the function that stores the field, and that store happens on every path of that function;
   writers   nothing else writes the field; every value stored is a clock reading taken in the storing function (never another timer's field, a
             parameter, or a constant), shutdown_timeout being now + UDP_SHUTDOWN_TIMER;
-  values    the documented durations (200 ms retry / keep-alive / quality report, 5 s shutdown).
+  values    every duration is positive (their relation to the default timeouts is a constant relation, Cxx.Z).
 
 Why it matters: a timer that shares a timestamp with another (the 0.12 handshake regression), is re-armed by unrelated traffic, or is not re-armed when
 it fires either floods the peer or never fires again."""
@@ -42,7 +42,7 @@ def rule(W, ob):
     for field, dur, state, action, rearm, writers_ in TIMERS:
         W.require_field('UdpProtocol', field)
         ms = duration_const_ms(W, dur)
-        ob.check(ms == 200, 'timer|%s|duration' % field, '%s is the documented 200 ms' % dur, '%s = %s ms (documented: 200 ms)' % (dur, ms), None)
+        ob.check(ms > 0, 'timer|%s|duration' % field, '%s is a positive duration (%d ms)' % (dur, ms), '%s = %s ms: a timer of zero length fires on every poll' % (dur, ms), None)
         acts = [t for t in p.calls() if callee_matches(t.callee, UDP + '::' + action)]
         ob.check(len(acts) == 1, 'timer|%s|action-site' % field, 'poll fires %s at one site' % action, 'poll has %d call(s) of %s' % (len(acts), action), where(p))
         for t in acts:
@@ -85,7 +85,7 @@ def rule(W, ob):
         ob.check(ok, 'timer|%s|value|%s' % (fld, short(f.path)), '%s stores a clock reading into %s' % (short(f.path), fld),
                  '%s stores `%s` into %s: a timer must be armed from the clock, not from another timer, a parameter or a computed instant' % (short(f.path), v[:100], fld), where(f, w['line']))
     ob.require_count(n, 7, 'timestamp stores in the endpoint')
-    ob.check(W.const('UDP_SHUTDOWN_TIMER') == 5000, 'timer|shutdown|duration', 'the shutdown linger is 5 s', 'UDP_SHUTDOWN_TIMER = %s' % W.const('UDP_SHUTDOWN_TIMER'), None)
+    ob.check(W.const('UDP_SHUTDOWN_TIMER') > 0, 'timer|shutdown|duration', 'the shutdown linger is positive (%s ms)' % W.const('UDP_SHUTDOWN_TIMER'), 'UDP_SHUTDOWN_TIMER = %s' % W.const('UDP_SHUTDOWN_TIMER'), None)
     # the shutdown transition: Disconnected -> Shutdown under shutdown_timeout < now
     stt = [w for w in stores_in(W, p, 'state')]
     for w in stt:
